@@ -14,6 +14,7 @@ fn factory(model: &str) -> Option<Factory> {
         "undo" => Box::new(|c: &Value| Box::new(models::undo::UF::new(c)) as Box<dyn Model>),
         "indexes" => Box::new(|c: &Value| Box::new(models::indexes::IXWrap::new(c)) as Box<dyn Model>),
         "agenda" => Box::new(|c: &Value| Box::new(models::agenda::AG::new(c)) as Box<dyn Model>),
+        "fireorder" => Box::new(|_c: &Value| Box::new(models::fireloops::FO) as Box<dyn Model>),
         "checkpoint" => Box::new(|c: &Value| Box::new(models::checkpoint::CK::new(c)) as Box<dyn Model>),
         "windows" => Box::new(|c: &Value| Box::new(models::windows::WN::new(c)) as Box<dyn Model>),
         "join" => Box::new(|c: &Value| Box::new(models::join::JN::new(c)) as Box<dyn Model>),
